@@ -203,17 +203,34 @@ def worker(args):
     rec = Rec("C16")
     lab = Lab(args.get("seed", 0))
     rng = lab.rng
+    def other_config_first():
+        # the FIRST Getter call of this process names another configuration than the default one: what the later calls answer
+        # must not depend on that (a data configuration that builds its Getters on first use)
+        from spil import GetFromAll
+        others = [c for c in lab.configs if c != lab.default_config]
+        if others:
+            try:
+                list(GetFromAll(others[0]).get(sorted(conf.projects)[0] if getattr(conf, "projects", None) else "*"))
+                GetFromAll(others[0]).get_attr(sorted(conf.projects)[0] if getattr(conf, "projects", None) else "*", "comment")
+            except Exception:
+                pass
+            rec.count("first_getter_call_named_another_configuration")
     attr_sets = [None] + [list(c) for n in range(1, 4) for c in itertools.combinations(KEYS, n)] + [["sid"], ["sid", "comment"], ["nope"], []]
     if "replay" in args:
         c = args["replay"]
         rec.ev()
         import random
+        if c.get("other_config_first"):
+            other_config_first()
         lab.new_universe(ents=c["ents"], names=c.get("names"), only_default=c.get("only_default"))
         store = write_sidecars(lab, random.Random(c["data_seed"]), conf)
         check_get(rec, lab, conf, store, c["config"], c["search"], c["attributes"], c["enc"], dict(c))
         lab.trees.reset()
         return rec.result()
     import random
+    ocf = args.get("seed", 0) % 2 == 1
+    if ocf:
+        other_config_first()
     for u in range(args["universes"]):
         ents = lab.new_universe(n_leaves=rng.choice([8, 20, 35]))
         if rng.random() < 0.3:
@@ -236,7 +253,7 @@ def worker(args):
         store = write_sidecars(lab, random.Random(data_seed), conf)
         uid = "%s-%d" % (args.get("seed"), u)
         case = {"ents": ents, "names": lab.names, "only_default": lab.only_default, "uid": uid, "data_seed": data_seed,
-                "dataconf_variant": lab.dataconf_variant}
+                "dataconf_variant": lab.dataconf_variant, "other_config_first": ocf}
         for k in range(args["searches"]):
             s, info = lab.search(allow_last=(rng.random() < 0.15))
             if filter_is_unspecified(s):
